@@ -47,7 +47,8 @@ class FunctionRun:
         f.logical = {}
         params = [p for p in self.node['inner'] if p.get('kind') == 'ParmVarDecl']
         ptr_params = {}
-        info = {'ints': {}, 'arrays': {}, 'cells': {}}
+        info = {'ints': {}, 'arrays': {}, 'cells': {}, 'fixed': {}}
+        pending = dict(self.config.get('set', {}))
         aliases = {}
         for a, b in self.config.get('alias', []):
             aliases[b] = a       # b is the same pointer as a
@@ -55,11 +56,29 @@ class FunctionRun:
         for p in params:
             ct = self.tu.ctype(p['type'])
             if ct.kind == 'int':
+                if p['name'] in pending:
+                    info['fixed'][p['name']] = pending[p['name']]
+                    f.params[p['name']] = (bv(pending.pop(p['name']), ct.bits), ct)
+                    continue
                 v = z3.BitVec(p['name'], ct.bits)
                 info['ints'][p['name']] = (v, ct.signed)
                 f.params[p['name']] = (v, ct)
         ctx = e.clause_ctx(f, 'post')
         tr = Translator(ctx, self.reg.defs)
+
+        def try_sets():
+            for path in list(pending):
+                base_path, _, fld = path.rpartition('.')
+                try:
+                    base = tr.expr(base_path)
+                except (ClauseError, Unsupported):
+                    continue
+                if not isinstance(base, Ptr) or base.region is None or base.region.kind != 'struct' or fld not in base.region.fields:
+                    continue
+                cell = base.region.fields[fld]
+                info['fixed'][cell.name] = pending[path]
+                e.st.mem[cell.id] = bv(pending.pop(path), cell.ct.bits)
+                info['ints'].pop(cell.name, None)
         # ghost parameters of the contract: fresh symbols constrained only by `requires`
         for ln, ldef in c.logical.items():
             m = re.match(r'^fresh:([ui])(\d+)$', ldef.strip())
@@ -90,12 +109,17 @@ class FunctionRun:
                 f.params[name] = (f.params[aliases[name]][0], ct)
                 continue
             f.params[name] = (self.make_pointee(name, spec, ct.to, tr, info), ct)
+            try_sets()
         # nested shape entries ('a.b': spec), in contract order
         for path, spec in c.regions.items():
             if '.' not in path and '[' not in path:
                 continue
             self.make_nested(path, spec, tr, info)
-        for ln, ldef in c.logical.items():
+            try_sets()
+        try_sets()
+        if pending:
+            raise Unsupported('config set: cannot resolve %s' % sorted(pending))
+        for ln, ldef in list(c.logical.items()) + list(self.config.get('let', {}).items()):
             if ln not in f.logical:
                 f.logical[ln] = tr.expr(ldef)
         for p in params:
@@ -347,7 +371,7 @@ def small_model(pc, goal, info, model):
 
 def model_witness(model, info):
     """concrete entry inputs from a counter-model"""
-    w = {'ints': {}, 'arrays': {}}
+    w = {'ints': dict(info.get('fixed', {})), 'arrays': {}}
     for name, (v, signed) in info['ints'].items():
         val = model.eval(v, model_completion=True)
         w['ints'][name] = val.as_signed_long() if signed else val.as_long()
